@@ -95,6 +95,89 @@ Proof.
     unfold is_sl in Esl; apply N.eqb_eq in E63 || apply N.eqb_eq in E35; subst c; discriminate Esl.
 Qed.
 
+(* ---------- path-relative references against ANY file base (the drive-letter bases included) ---------- *)
+(* C01_EqFileBase.runs_file_rel_path with the Standard's "shorten" in general form: shorten_f keeps a path that is a
+   single normalized drive letter, otherwise drops the last segment *)
+Section SpecFileRelAny.
+Variable shp : bool -> list N -> option spec_host.
+Variable inp : list N.
+Variable sb : spec_url.
+Hypothesis Hop : has_opaque_path sb = false.
+Hypothesis Hf : list_eqb (su_scheme sb) str_file = true.
+
+Theorem runs_file_rel_path_any c t : inp = c :: t -> spec_scheme inp = None ->
+  is_sl c = false -> (c =? 63) = false -> (c =? 35) = false ->
+  starts_with_windows_drive_letter inp = false ->
+  Runs shp inp (Some sb) m0 (BDone (file_tail (fkeep sb (shorten_f (path_segments sb)))
+                                            (spath_f inp (shorten_f (path_segments sb)) []))).
+Proof.
+  intros Hin Hs Esl E63 E35 Hw.
+  assert (inp = [] ++ inp) as Hin0 by reflexivity.
+  assert (inp <> []) as Hne by (rewrite Hin; discriminate).
+  assert (su_path sb = SPList (path_segments sb)) as HP.
+  { unfold path_segments. unfold has_opaque_path in Hop. destruct (su_path sb); [discriminate Hop | reflexivity]. }
+  unfold is_sl in Esl. apply orb_false_iff in Esl. destruct Esl as [E47 E92].
+  apply runs_no_scheme; [exact Hs|].
+  eapply (runs_step_stay shp inp (Some sb) StNoScheme [] inp) with (st' := StFile) (buf' := []);
+    [reflexivity | exact Hne | |].
+  { rewrite (step_unfold shp inp (Some sb) _ [] inp) by reflexivity. cbn zeta.
+    unfold st_no_scheme. rewrite Hop, Hf. cbn [andb negb]. reflexivity. }
+  eapply (runs_step_stay shp inp (Some sb) StFile [] inp) with (st' := StPath) (buf' := [])
+    (u' := fkeep sb (shorten_f (path_segments sb))); [reflexivity | exact Hne | |].
+  - rewrite (step_unfold shp inp (Some sb) _ [] inp) by reflexivity. cbn zeta. rewrite Hin. cbn [hd_error tl].
+    unfold st_file, base_is_file. rewrite Hf. cbn [cis]. rewrite E47, E92, E63, E35. cbn [orb].
+    rewrite <- Hin, Hw. cbn [negb].
+    unfold shorten_path.
+    cbn [su_path su_scheme set_query set_path set_port set_host set_password set_username set_scheme empty_url m_url at_pos].
+    rewrite HP.
+    replace (list_eqb str_file str_file) with true by reflexivity. cbn [andb].
+    unfold shorten_f.
+    destruct (path_segments sb) as [|p0 [|p1 P']] eqn:EP.
+    + reflexivity.
+    + destruct (is_normalized_windows_drive_letter p0); reflexivity.
+    + reflexivity.
+  - exact (runs_path_f shp inp (Some sb) inp [] [] false false false (fkeep sb (shorten_f (path_segments sb)))
+             (shorten_f (path_segments sb)) Hin0 eq_refl eq_refl).
+Qed.
+End SpecFileRelAny.
+
+Section StdFS2.
+Variable shp : bool -> list N -> option spec_host.
+
+(* C08_StdFile.std_contain_file without its premise on the last segment of the base path *)
+Theorem std_contain_file_rel_any input sb : spec_valid sb -> has_opaque_path sb = false ->
+  list_eqb (su_scheme sb) str_file = true -> std_file_rel_pre (spec_clean input) = true ->
+  exists su, spec_basic_url_parse shp input (Some sb) = BDone su /\ spec_same_front sb su
+    /\ su = file_tail (fkeep sb (shorten_f (path_segments sb)))
+                      (spath_f (spec_clean input) (shorten_f (path_segments sb)) []).
+Proof.
+  intros V Hop Hf Hpre. unfold std_file_rel_pre in Hpre. apply andb_true_iff in Hpre. destruct Hpre as [Hsch Hc].
+  assert (spec_scheme (spec_clean input) = None) as Hs by (destruct (spec_scheme (spec_clean input)); [discriminate | reflexivity]).
+  destruct (spec_clean input) as [|c t] eqn:Ecl; [discriminate Hc|].
+  apply andb_true_iff in Hc. destruct Hc as [Hc Hw]. apply andb_true_iff in Hc. destruct Hc as [Hc E35].
+  apply andb_true_iff in Hc. destruct Hc as [Esl E63]. apply negb_true_iff in Esl, E63, E35, Hw.
+  eexists. split; [|split; [|reflexivity]].
+  - apply spec_parse_of_runs. rewrite Ecl.
+    exact (runs_file_rel_path_any shp (c :: t) sb Hop Hf c t eq_refl Hs Esl E63 E35 Hw).
+  - apply file_tail_front; [apply list_eqb_spec; exact Hf | exact V].
+Qed.
+
+(* the three reference shapes with no premise on the base path *)
+Definition std_file_any_pre (l : list N) : bool :=
+  std_file_simple_pre l || std_file_one_pre l || std_file_rel_pre l.
+
+Theorem std_contain_file_any input sb : spec_valid sb -> has_opaque_path sb = false ->
+  list_eqb (su_scheme sb) str_file = true -> std_file_any_pre (spec_clean input) = true ->
+  exists su, spec_basic_url_parse shp input (Some sb) = BDone su /\ spec_same_front sb su.
+Proof.
+  intros V Hop Hf Hpre. unfold std_file_any_pre in Hpre.
+  apply orb_true_iff in Hpre. destruct Hpre as [Hpre|Hpre]; [apply orb_true_iff in Hpre; destruct Hpre as [Hpre|Hpre]|].
+  - destruct (std_contain_file_simple shp input sb V Hop Hpre) as (su & HS & HF & _). exists su. split; assumption.
+  - destruct (std_contain_file_one shp input sb V Hop Hf Hpre) as (su & HS & HF & _). exists su. split; assumption.
+  - destruct (std_contain_file_rel_any input sb V Hop Hf Hpre) as (su & HS & HF & _). exists su. split; assumption.
+Qed.
+End StdFS2.
+
 (* ---------- the crate's join agrees on C01's one-slash classes ---------- *)
 (* C01's classes for the scheme-less one-slash reference: in_class_file_rel_one (no drive letter carried: the text
    behind the separator does not start with a drive letter and the first segment of the base path is not a normalized
